@@ -4,7 +4,7 @@
   appearance (the Go harness applies the same canonicalisation to the real strings).
 -/
 import Fosite.Driver.Wire
-import Fosite.Model.Step
+import Fosite.Model.Fault
 namespace Fosite.Driver
 open Fosite.Model
 
@@ -73,7 +73,9 @@ def renderReq (r : Req) : String :=
 
 def renderRes : Res → String
   | .ok => "ok" | .notFound => "notfound" | .req _ => "ok" | .inactive _ => "inactive"
-  | .client _ => "ok" | .nat _ => "ok" | .par _ => "ok" | .dev _ => "ok" | .usedDev _ => "used" | .fail e => "err:" ++ e.wire
+  | .client _ => "ok" | .nat _ => "ok" | .par _ => "ok" | .dev _ => "ok" | .usedDev _ => "used"
+  | .fail .not_found => "notfound"      -- an injected ErrNotFound is indistinguishable from a genuine one
+  | .fail e => "err:" ++ e.wire
 
 def renderCall : Call × Res → String
   | (.getClient id, r) => s!"getClient({id})={renderRes r}"
@@ -193,6 +195,12 @@ def parseOp (n : Names) (fs : List String) : Option Op :=
                         ("audience", " ".intercalate (decList aud))] })
   | ["revoke", client, cred, tok, hint] =>
     some (.revoke { clientId := client, credOk := parseBool cred, token := parsePresented n tok, hint := parseHint hint })
+  | ["introspectHTTP", ckind, carg, ccred, tok, hint, scopes] =>
+    let caller : Caller := match ckind with
+      | "bearer" => .bearer (parsePresented n carg) (carg == tok && carg != "foreign")
+      | "basic" => .basic carg (parseBool ccred)
+      | _ => .anonymous
+    some (.introspectEndpoint { caller := caller, q := { token := parsePresented n tok, hint := parseHint hint, scopes := decList scopes } })
   | ["introspect", tok, hint, scopes] =>
     some (.introspect { token := parsePresented n tok, hint := parseHint hint, scopes := decList scopes })
   | ["cc", client, cred, scopes, aud] =>
@@ -216,19 +224,37 @@ def parseOp (n : Names) (fs : List String) : Option Op :=
 structure HistState where
   m : MState := {}
   names : Names := {}
+  tx : Bool := false                       -- the store implements storage.Transactional (cfg tx=1)
+  pending : List (Nat × Err) := []         -- fault plan for the next operation (op "fault")
   deriving Inhabited
+
+def parseFaultKind : String → Err
+  | "not_found" => .not_found
+  | "serialization" => .serialization_failure
+  | _ => .generic
+
+def parsePlan (s : String) : List (Nat × Err) :=
+  (decList s).filterMap (fun e => match e.splitOn ":" with
+    | [i, k] => i.toNat?.map (fun n => (n, parseFaultKind k))
+    | _ => none)
 
 /-- one line in, one line out -/
 def histStep (h : HistState) (line : String) : HistState × String :=
+  match fields line with
+  | ["fault", plan] =>
+    let (names', txt) := h.names.rewrite ("ok ||  || " ++ renderDump h.m.ss.store)
+    ({ h with pending := parsePlan plan, names := names' }, txt)
+  | _ =>
   match parseOp h.names (fields line) with
-  | none => (h, "bad-op")
+  | none => ({ h with pending := [] }, "bad-op")
   | some op =>
-    let m0 := match fields line with
-      | "cfg" :: rest => { h.m with ss := { h.m.ss with devMark := parseBool (kv rest "devMark") } }
-      | _ => h.m
-    let (m', out, log) := step m0 op
+    let (m0, tx) := match fields line with
+      | "cfg" :: rest => ({ h.m with ss := { h.m.ss with devMark := parseBool (kv rest "devMark") } }, parseBool (kv rest "tx"))
+      | _ => (h.m, h.tx)
+    -- the plan applies to this operation only; storage-call indices are per operation
+    let (m', out, log) := stepWith { plan := planOf h.pending, tx := tx } m0 op
     let raw := renderOut out ++ " || " ++ " ".intercalate (log.map renderCall) ++ " || " ++ renderDump m'.ss.store
     let (names', txt) := h.names.rewrite raw
-    ({ m := m', names := names' }, txt)
+    ({ m := m', names := names', tx := tx, pending := [] }, txt)
 
 end Fosite.Driver
